@@ -75,6 +75,10 @@ func (p *Program) ApplyInserts(inserts map[string]*InsertStmt, absPath string) *
 func (p *Program) ApplyLayout(prog *Program) {
 	p.UseStmt.Program = prog
 	p.Statements = []Statement{p.UseStmt}
+
+	// the components that the layout itself uses are resolved
+	// together with the components of the page
+	p.Components = append(p.Components, prog.Components...)
 }
 
 func (p *Program) ApplyComponent(name string, prog *Program, progFilePath string) *fail.Error {
